@@ -452,15 +452,7 @@ func (il *inliner) hoistable(st ast.Stmt, call *ast.CallExpr) bool {
 				if cond {
 					ok = false
 				}
-				// arguments of the call itself are evaluated before it; they must be call-free
-				for _, a := range x.Args {
-					if hasCall(a) {
-						ok = false
-					}
-				}
-				if sel, isSel := x.Fun.(*ast.SelectorExpr); isSel && hasCall(sel.X) {
-					ok = false
-				}
+				// the call's own receiver and arguments are evaluated immediately before it in either form
 				found = true
 				return
 			}
